@@ -31,11 +31,38 @@ fn walk(
         // a skipped parameter is not a parameter as far as the registry is concerned
         Ty::Param(i) if !params[*i].skipped => return,
         Ty::Phantom(_) => return,
-        // transparent pointers do not exist in the registry
-        Ty::Ptr(_, inner) => return walk(prog, low, params, inner, args, arg_ids, bad),
         _ => {}
     }
     let closed = t.subst(args, &assoc);
+    if let Ty::Ptr(_, inner) = t {
+        // a transparent pointer is keyed as its exact pointee (one level of `Identity`): the entry
+        // has the content of the pointee but, when the pointee's own key differs from its exact
+        // type (Vec, String, another pointer), not its id.
+        if let Ty::Param(i) = &**inner {
+            if !params[*i].skipped && args[*i].identity_changes_under_pointer() {
+                bad.push(format!(
+                    "CF3: parameter {} under a transparent pointer is instantiated with {}, whose entry under a pointer is not the argument's entry",
+                    params[*i].name,
+                    prog.render_closed(&args[*i])
+                ));
+            }
+            return;
+        }
+        if let Some(id) = id_of(low, &closed) {
+            if arg_ids.contains(&id) {
+                bad.push(format!(
+                    "CF2: sub-expression {} has the id of an argument",
+                    prog.render_closed(&closed)
+                ));
+            }
+        }
+        // the structure below is that of the pointee
+        let mut s: &Ty = inner;
+        while let Ty::Ptr(_, i) = s {
+            s = i;
+        }
+        return walk_below(prog, low, params, s, args, arg_ids, bad);
+    }
     if let Some(id) = id_of(low, &closed) {
         if arg_ids.contains(&id) {
             bad.push(format!(
@@ -44,9 +71,30 @@ fn walk(
             ));
         }
     }
+    walk_below(prog, low, params, t, args, arg_ids, bad)
+}
+
+/// the registry-visible children of the entry of `t` (`t` itself already checked)
+fn walk_below(
+    prog: &Program,
+    low: &Lowered,
+    params: &[ParamDecl],
+    t: &Ty,
+    args: &[Ty],
+    arg_ids: &BTreeSet<u32>,
+    bad: &mut Vec<String>,
+) {
+    let assoc = assoc_resolver(prog);
     match t {
+        Ty::Param(i) if !params[*i].skipped => {
+            // `Box<Box<T>>` is keyed as the exact type `Box<T>`: an entry with the content of the
+            // argument's entry but never its id
+            let _ = i;
+            bad.push("CF3: parameter under nested transparent pointers".into());
+        }
         Ty::Assoc(_) | Ty::Param(_) => {
             // the resolved type is a non-parameter expression all the way down
+            let closed = t.subst(args, &assoc);
             walk_closed(prog, low, &closed, arg_ids, bad);
         }
         Ty::Def(d, a) => {
@@ -75,6 +123,14 @@ fn walk(
 
 fn walk_closed(prog: &Program, low: &Lowered, t: &Ty, arg_ids: &BTreeSet<u32>, bad: &mut Vec<String>) {
     match t {
+        Ty::Ptr(_, inner) => {
+            // the entry of a pointer has the children of its pointee
+            let mut s: &Ty = inner;
+            while let Ty::Ptr(_, i) = s {
+                s = i;
+            }
+            walk_closed(prog, low, s, arg_ids, bad);
+        }
         Ty::Def(d, a) => {
             for (p, x) in prog.defs[*d].params.iter().zip(a.iter()) {
                 if !p.skipped {
